@@ -2,7 +2,9 @@ package checks
 
 import (
 	"bytes"
+	"errors"
 	"fmt"
+	"io"
 	"math/rand"
 	"strconv"
 	"strings"
@@ -86,14 +88,41 @@ func (d *dynMonitor) hook(s bcl.VerifVMState) {
 
 // c10Program verifies one compiled program statically and dynamically.
 // Returns the number of jumps and how many were seen in both directions.
-func c10Program(c *core.Ctx, src []byte, variant []byte) {
+// flakyWriter fails the writes whose (0-based) index has its bit set in mask; later ones succeed.
+type flakyWriter struct {
+	mask  uint64
+	n     int
+	fails int
+}
+
+func (w *flakyWriter) Write(p []byte) (int, error) {
+	k := w.n
+	w.n++
+	if k < 64 && w.mask>>uint(k)&1 == 1 {
+		w.fails++
+		return 0, errors.New("injected log write error")
+	}
+	return len(p), nil
+}
+
+func c10Program(c *core.Ctx, src []byte, variant []byte) { c10ProgramLog(c, src, variant, nil) }
+
+// c10ProgramLog: logw, when given, takes the diagnostics (a writer that fails now and then).
+func c10ProgramLog(c *core.Ctx, src []byte, variant []byte, logw *flakyWriter) {
 	if !vetMemory(src) || (variant != nil && !vetMemory(variant)) {
 		c.Count("skipped_excluded_huge_result", 1)
 		return
 	}
 	var out, lg bytes.Buffer
-	prog, err := bcl.Parse(src, "c10", bcl.OptOutput(&out), bcl.OptLogger(&lg))
+	var lw io.Writer = &lg
+	if logw != nil {
+		lw = logw
+	}
+	prog, err := bcl.Parse(src, "c10", bcl.OptOutput(&out), bcl.OptLogger(lw))
 	c.Eval(1)
+	if logw != nil && logw.fails > 0 {
+		c.Count("compilations_with_a_failing_log_write", 1)
+	}
 	if err != nil {
 		c.Count("programs_rejected_by_parse", 1)
 		return
@@ -200,6 +229,7 @@ func stripDigits(s string) string {
 func c10Switched(r *rand.Rand) (src, variant []byte) {
 	cfg := randProfile(r)
 	cfg.PreDecl = false
+	cfg.BadLitPct = 1 // int literals without a value: whatever is accepted must be well-formed
 	cfg.Names = append([]string{"p", "q", "s", "e"}, cfg.Names...)
 	g := lang.NewGen(r, cfg)
 	pre := []*lang.Stmt{
@@ -252,6 +282,10 @@ func fl(text string) *lang.Literal {
 
 func c10Fixed() []string {
 	var l []string
+	// int literals without a value, wherever an operand may stand (rejected today; if ever accepted, the code must be sound)
+	for _, lit := range []string{"9223372036854775808", "0x8000000000000000", "0xffffffffffffffffff", "0X10000000000000000", "18446744073709551616", "01777777777777777777777", "08", "0x", "1e999", "0x1p-2"} {
+		l = append(l, "print "+lit+"\n", "var a = "+lit+"\nprint a\n", "def b { x = 1 or "+lit+"; y = 0 and "+lit+" }\n", "print -"+lit+" + 1\n", "def b { f = "+lit+" }\nbind b -> struct\n")
+	}
 	// > 240 locals: slots crossing the 1-byte varint range, used in short-circuits
 	var b strings.Builder
 	for k := 0; k < 300; k++ {
@@ -341,7 +375,7 @@ func init() {
 		Level: "exploration",
 		Rule: "structural-invariant monitor over the artefact of every compilation, at the quiescent point 'Parse returned': an independent decoder + CFG dataflow checker (instructions tile the code, RET last and only there, operand kinds, jump targets on boundaries, equal operand/block depth on all in-edges, slots live, depth 0 at RET) over the program's in-memory parts; " +
 			"cross-checked dynamically through the VM hook (every executed pc is a boundary, tos/blockTos equal the static values), each program also executed with flipped switch variables so that short-circuit jumps are seen taken and not taken. " +
-			"distinct = hash of code+constants; non-trivial = the program contains >= 1 jump Fixed boundary programs: > 240 locals and constants, 2600 constants (operand 2287/2288), skipped operands of 65524..65540 code bytes for and / or / and-then-or / or-chains, chains of 2..40 and/or operands.",
+			"distinct = hash of code+constants; non-trivial = the program contains >= 1 jump Fixed boundary programs: > 240 locals and constants, 2600 constants (operand 2287/2288), skipped operands of 65524..65540 code bytes for and / or / and-then-or / or-chains, chains of 2..40 and/or operands. 1% of int literals are spelled without a value (2^63, 2^64, hex and octal overflow, 08, 0x); a quarter of the programs get one token damaged and their diagnostics go to a log writer that fails on some writes and recovers: whatever Parse accepts is verified.",
 		Assumptions:   []string{"the opcode table of internal/bc (operand shapes, stack effects) is the documented instruction set; it is validated against the real VM by the dynamic cross-check"},
 		MinNontrivial: 500,
 		Run: func(c *core.Ctx) {
@@ -361,7 +395,30 @@ func init() {
 					r := c.Rand(i)
 					src, variant := c10Switched(r)
 					c.Begin(i)
-					c10Program(c, src, variant)
+					done := false
+					if k%4 == 3 {
+						// one token damaged, diagnostics to a log writer that fails on some writes and recovers:
+						// whatever Parse accepts must still be well-formed
+						if toks, ok := lang.Lex(string(src)); ok && len(toks) > 1 {
+							pos := r.Intn(len(toks))
+							switch r.Intn(3) {
+							case 0:
+								toks = append(append([]lang.Tok{}, toks[:pos]...), toks[pos+1:]...)
+							case 1:
+								toks = append(append(append([]lang.Tok{}, toks[:pos]...), c17Vocab[r.Intn(len(c17Vocab))]), toks[pos:]...)
+							default:
+								toks = append([]lang.Tok{}, toks...)
+								toks[pos] = c17Vocab[r.Intn(len(c17Vocab))]
+							}
+							dsrc := lang.Layout(toks, lang.LayoutOpts{StmtNewlines: true}, nil).Src
+							mask := []uint64{1, 3, 5, 0x55555555, 0x7fffffff, 2, r.Uint64()}[r.Intn(7)]
+							c10ProgramLog(c, dsrc, nil, &flakyWriter{mask: mask})
+							done = true
+						}
+					}
+					if !done {
+						c10Program(c, src, variant)
+					}
 				}
 				i++
 			}
